@@ -14,6 +14,7 @@ import (
 	"time"
 
 	"verif/harness/internal/core"
+	"verif/harness/internal/corpus"
 )
 
 // C19 concurrency: a second newpolicy.sh runs to completion while the
@@ -27,7 +28,7 @@ func (b *c19Box) startPaused(pauseAt int, tag string) (*exec.Cmd, string) {
 	os.Remove(steplog)
 	ctrl := filepath.Join(b.dir, "ctrl", tag)
 	os.MkdirAll(ctrl, 0755)
-	cmd := exec.Command("/repo/bin/newpolicy.sh")
+	cmd := exec.Command(corpus.RepoDir + "/bin/newpolicy.sh")
 	cmd.Dir = b.dir
 	cmd.Env = append(append([]string{}, b.env...), "BASH_ENV="+filepath.Join(b.dir, "hook.sh"), "VERIF_STEPLOG="+steplog,
 		"VERIF_CTRL="+ctrl, "VERIF_PAUSE_AT="+strconv.Itoa(pauseAt))
